@@ -136,6 +136,7 @@ struct RouteResult {
     int rc = -1;
     std::string bytes, battery, cleared;
     int owned = -1;
+    std::string memnote;  // memory route only: the caller's bytes were written to
     std::string fdnote;   // descriptor route only: what happened to the caller's descriptor ("" = nothing)
 };
 
@@ -190,6 +191,8 @@ static RouteResult run_route(char kind, bool mem, const std::vector<uint8_t>& fi
         sb_trajectory_t tr;
         memset(&tr, SBH_FILL, sizeof(tr));
         r.rc = mem ? sb_trajectory_init_from_binary_file_in_memory(&tr, buf->p, buf->n) : sb_trajectory_init_from_binary_file(&tr, fd);
+        if (mem && buf->n && memcmp(buf->p, file.data(), buf->n) != 0)
+            r.memnote = "the-caller's-buffer-was-modified-by-loading";
         if (r.rc == SB_SUCCESS) {
             r.bytes = hex(SB_BUFFER(tr.buffer), sb_buffer_size(&tr.buffer));
             r.owned = !sb_buffer_is_view(&tr.buffer);
@@ -213,6 +216,8 @@ static RouteResult run_route(char kind, bool mem, const std::vector<uint8_t>& fi
         sb_light_program_t prog;
         memset(&prog, SBH_FILL, sizeof(prog));
         r.rc = mem ? sb_light_program_init_from_binary_file_in_memory(&prog, buf->p, buf->n) : sb_light_program_init_from_binary_file(&prog, fd);
+        if (mem && buf->n && memcmp(buf->p, file.data(), buf->n) != 0)
+            r.memnote = "the-caller's-buffer-was-modified-by-loading";
         if (r.rc == SB_SUCCESS) {
             r.bytes = hex(SB_BUFFER(prog.buffer), sb_buffer_size(&prog.buffer));
             r.owned = !sb_buffer_is_view(&prog.buffer);
@@ -241,6 +246,8 @@ static RouteResult run_route(char kind, bool mem, const std::vector<uint8_t>& fi
         sb_yaw_control_t ctrl;
         memset(&ctrl, SBH_FILL, sizeof(ctrl));
         r.rc = mem ? sb_yaw_control_init_from_binary_file_in_memory(&ctrl, buf->p, buf->n) : sb_yaw_control_init_from_binary_file(&ctrl, fd);
+        if (mem && buf->n && memcmp(buf->p, file.data(), buf->n) != 0)
+            r.memnote = "the-caller's-buffer-was-modified-by-loading";
         if (r.rc == SB_SUCCESS) {
             r.bytes = hex(SB_BUFFER(ctrl.buffer), sb_buffer_size(&ctrl.buffer));
             r.owned = !sb_buffer_is_view(&ctrl.buffer);
@@ -251,6 +258,8 @@ static RouteResult run_route(char kind, bool mem, const std::vector<uint8_t>& fi
         sb_rth_plan_t plan;
         memset(&plan, SBH_FILL, sizeof(plan));
         r.rc = mem ? sb_rth_plan_init_from_binary_file_in_memory(&plan, buf->p, buf->n) : sb_rth_plan_init_from_binary_file(&plan, fd);
+        if (mem && buf->n && memcmp(buf->p, file.data(), buf->n) != 0)
+            r.memnote = "the-caller's-buffer-was-modified-by-loading";
         if (r.rc == SB_SUCCESS) {
             r.bytes = hex(plan.buffer, plan.buffer_length);
             r.owned = plan.owner;
@@ -307,7 +316,7 @@ SB_OP(load2)
     RouteResult f = run_route(kind, false, v);
     RouteResult m = run_route(kind, true, v);
     add(out, f.fdnote.empty() ? std::to_string(f.rc) : std::to_string(f.rc) + "!" + f.fdnote);
-    add(out, (long long)m.rc);
+    add(out, m.memnote.empty() ? std::to_string(m.rc) : std::to_string(m.rc) + "!" + m.memnote);
     if (f.rc == SB_SUCCESS && m.rc == SB_SUCCESS) {
         add(out, f.bytes);
         add(out, m.bytes);
